@@ -43,7 +43,7 @@ type Options struct {
 	Torn        bool
 	// Holes: un-fsynced writes of one file may reach the disk out of order (page cache write-back has no order):
 	// besides every prefix, every "prefix with one earlier write missing" is enumerated
-	Holes bool
+	Holes       bool
 	MaxPerPoint int
 	// Base: durable content present before the first journal operation (repeated crashes: the image the
 	// recovery run started from)
@@ -103,6 +103,9 @@ func stateAt(ops []vos.Op, k int, o Options) map[string]*fileState {
 					x.exists = true
 				}
 			}
+		case "link":
+			// hard link: both names refer to one inode (one shared file state)
+			files[op.To] = get(op.Path)
 		case "remove":
 			delete(files, op.Path)
 		case "removeall":
